@@ -227,7 +227,7 @@ func c04Immediate(w *World, b *Backend, r *Result) {
 		emits := len(mf.Emissions) > 0
 		retHelper := false
 		for _, t := range ts {
-			if strings.Contains(t.String(), "field:varCounter") {
+			if hc, _ := counterRoles(b); hc != "" && strings.Contains(t.String(), "field:"+hc) {
 				retHelper = true
 			}
 		}
